@@ -152,6 +152,9 @@ class PopulationBalanceModel:
         TODO: Make sure this works when adaptive bins is False
         '''
         if self._record:
+            #Recorded data may have been removed (removeRecordedData) while recording is still enabled
+            if self._recordedBins is None:
+                self.resetRecordedData()
             maxBins = self.maxBins if self._adaptiveBinSize else self.bins
             #Never shrink the recorded arrays (they are created with maxBins columns and the grid can be extended)
             maxBins = np.amax([maxBins, self.bins, self._recordedPSD.shape[1]])
@@ -201,7 +204,8 @@ class PopulationBalanceModel:
             1) this may remove the last 1 bins (this may be okay since we add new bins once the
                 list bins has at least 1 particle), so the last bin would be 0 anyways
         '''
-        nonzero = len(np.nonzero(self._recordedBins[index])[0])
+        #Rows are padded with trailing zeros, the first bound itself can be 0
+        nonzero = len(np.trim_zeros(self._recordedBins[index], 'b'))
         if nonzero == 0:
             PSDbounds = np.linspace(self.originalMin, self.originalMax, self.originalBins+1)
             PSDsize = 0.5 * (PSDbounds[1:] + PSDbounds[:-1])
